@@ -380,6 +380,16 @@ class Live:
         self.handles = {}
         self.graveyard = []   # (slot objects of dropped/replaced contexts still referenced by handles)
         self.focus = self.cfg.get('focus')
+        self.argbuf = []      # one list object re-used (and edited in place) for every other argument
+        self.argcount = 0
+
+    def arg(self, names):
+        """The caller may keep one list and edit it between calls; a correct library never retains it."""
+        self.argcount += 1
+        if self.argcount % 2:
+            return list(names)
+        self.argbuf[:] = names
+        return self.argbuf
 
     # ---------------------------------------------------------- helpers
 
@@ -507,7 +517,7 @@ class Live:
                 continue
             names = list(sl.onames(A))
             e, i = self._least_concept(f, A=A)
-            got = call(ctx.__getitem__, names)
+            got = call(ctx.__getitem__, self.arg(names))
             want = (sl.onames(e), sl.pnames(i))
             rec.check('C02.least_concept', got.ok and got.value == want,
                       lambda: f'context[{names!r}] = {got.text()} model {want!r} rows={f.rows}')
@@ -563,7 +573,7 @@ class Live:
                 continue
             names = list(sl.onames(A))
             e, i = self._least_concept(f, A=A)
-            got = call(lat.__getitem__, names)
+            got = call(lat.__getitem__, self.arg(names))
             rec.check('C02.lattice_getitem_is_member',
                       got.ok and got.value is table.get(e) and got.value.intent == sl.pnames(i),
                       lambda: f'lattice[{names!r}] = {got.text()} expected member with extent {sl.onames(e)!r} rows={f.rows}')
@@ -573,7 +583,7 @@ class Live:
             names = list(sl.pnames(B))
             e = f.extent(B)
             i = f.intent(e)
-            got = call(lat, names)
+            got = call(lat, self.arg(names))
             rec.check('C02.lattice_call_is_member',
                       got.ok and got.value is table.get(e) and got.value.intent == sl.pnames(i),
                       lambda: f'lattice({names!r}) = {got.text()} expected member with extent {sl.onames(e)!r} rows={f.rows}')
@@ -604,7 +614,7 @@ class Live:
             ci = f.index_of(f.close_objs(A))
             want = {(sl.onames(f.concepts()[u][0]), sl.pnames(f.concepts()[u][1]))
                     for u in f.upper_covers(ci)}
-            got = call(ctx.neighbors, names)
+            got = call(ctx.neighbors, self.arg(names))
             ok = got.ok and isinstance(got.value, list) and len(got.value) == len(set(got.value)) \
                 and set(got.value) == want
             rec.check('C05.neighbors_eq_upper_covers', ok,
@@ -888,7 +898,7 @@ class Live:
             return (s,)
         if kind == 'q_get':
             names, e, i = self._key(sl, ev[2], ev[3])
-            out = call(ctx.__getitem__, names)
+            out = call(ctx.__getitem__, self.arg(names))
             want = (sl.onames(e), sl.pnames(i))
             rec.check('C02.least_concept', out.ok and out.value == want,
                       lambda: f'context[{names!r}] = {out.text()} model {want!r} rows={f.rows}')
@@ -900,11 +910,11 @@ class Live:
             # the library call comes first: on a fresh lattice it is the very first query
             if kind == 'q_lat_get':
                 names, e, i = self._key(sl, ev[3], ev[4])
-                out = call(lat.__getitem__, names)
+                out = call(lat.__getitem__, self.arg(names))
             elif kind == 'q_lat_call':
                 names = [sl.props[j % f.m] for j in ev[3]]
                 e = f.extent(sl.pmask(names))
-                out = call(lat, names)
+                out = call(lat, self.arg(names))
             elif kind == 'q_lat_idx':
                 k = ev[3] % len(f.concepts())
                 out = call(lat.__getitem__, k)
